@@ -35,7 +35,11 @@ func (a Any) completeIndexExprAtPos(ctx context.Context, pos hcl.Pos) []lang.Can
 		// we start a new completion to enable completion of
 		// references and functions.
 		lastTraversal := eType.Traversal[len(eType.Traversal)-1]
-		if _, ok := lastTraversal.(hcl.TraverseIndex); ok {
+		if idxStep, ok := lastTraversal.(hcl.TraverseIndex); ok {
+			if idxStep.Key.IsKnown() {
+				// a key is already there (e.g. tags[0])
+				return candidates
+			}
 			// only if the position is between the brackets
 			stepRng := lastTraversal.SourceRange()
 			if pos.Byte <= stepRng.Start.Byte || pos.Byte >= stepRng.End.Byte {
